@@ -324,6 +324,7 @@ def fix_ptm(molecule):
                            type='unknown-input')
             for idxs in res_ptms:
                 for idx in idxs[0]:
+                    resid_to_idxs[molecule.nodes[idx]['resid']].remove(idx)
                     molecule.remove_node(idx)
                     removed.add(idx)
             continue
